@@ -20,7 +20,10 @@ use crate::{
     world::{content, gen_ent, hexbytes, world, Ent, GenCfg},
 };
 
-pub struct Events;
+pub struct Events {
+    /// C15: judge only the download flag of remote events against the policy definition
+    pub only_download: bool,
+}
 
 #[derive(Serialize, Deserialize, Clone, Debug)]
 pub enum EStep {
@@ -84,7 +87,7 @@ struct Sub {
 impl Scenario for Events {
     type Plan = EventsPlan;
     fn name(&self) -> String {
-        "events".into()
+        if self.only_download { "events-download-flag".into() } else { "events".into() }
     }
 
     fn gen(&self, rng: &mut Rng, tier: Tier) -> EventsPlan {
@@ -118,6 +121,7 @@ impl Scenario for Events {
                     EStep::Message { es, status: rng.below(3) as u8, peer: rng.below(3) as u8, bad }
                 }
                 32 | 33 => EStep::SetPolicy { p: gen_policy(rng) },
+                34 | 35 if self.only_download => EStep::SetPolicy { p: gen_policy(rng) },
                 34 | 35 => EStep::Tick { dt: rng.range(1, 4) },
                 _ => EStep::Await,
             };
@@ -128,7 +132,7 @@ impl Scenario for Events {
     }
 
     fn exec(&self, plan: &EventsPlan, cx: &mut Cx) -> Res {
-        block_on_sim(plan.seed, run(plan, cx))
+        block_on_sim(plan.seed, run(plan, cx, self.only_download))
     }
 
     fn shrink(&self, plan: &EventsPlan) -> Vec<EventsPlan> {
@@ -155,7 +159,20 @@ fn status_of(s: u8) -> ContentStatus {
     }
 }
 
-fn check_sub(i: usize, s: &Sub, applied: &[Applied], ns: iroh_docs::NamespaceId, final_check: bool) -> Res {
+fn check_sub(i: usize, s: &Sub, applied: &[Applied], ns: iroh_docs::NamespaceId, final_check: bool, only_download: bool) -> Res {
+    if only_download {
+        // the flag of every remote event must be what the policy in force says for its key
+        for ev in &s.got {
+            if let Event::RemoteInsert { entry, should_download, .. } = ev {
+                if let Some(w) = applied.iter().find(|a| &a.entry == entry && !a.local) {
+                    if *should_download != w.download {
+                        return Err(Violation::new("download-flag/mismatch", format!("subscriber {i}: event for key {} has should_download={should_download}, the policy says {}", hex::encode(entry.key()), w.download)));
+                    }
+                }
+            }
+        }
+        return Ok(());
+    }
     let end = s.end.unwrap_or(applied.len());
     let want = &applied[s.start.min(end)..end];
     // what was received must be a prefix of the expected sequence; at the final check of a live
@@ -212,7 +229,7 @@ fn short_ev(e: &Event) -> String {
     format!("{:?}", ev_entry(e).entry().id())
 }
 
-async fn run(plan: &EventsPlan, cx: &mut Cx) -> Res {
+async fn run(plan: &EventsPlan, cx: &mut Cx, only_download: bool) -> Res {
     let w = world();
     let ns = w.doc_id(0);
     let mut sut = Sut::new(Backend::Mem)?;
@@ -257,7 +274,7 @@ async fn run(plan: &EventsPlan, cx: &mut Cx) -> Res {
                     match poll_once(&mut fut) {
                         Poll::Ready(r) => {
                             progressed = true;
-                            if let Some(ok) = expect_ok {
+                            if let (Some(ok), false) = (expect_ok, only_download) {
                                 if r.is_ok() != ok {
                                     return Err(Violation::new(format!("result/{name}"), format!("{name} returned ok={}, the model says ok={ok}: {r:?}", r.is_ok())));
                                 }
@@ -483,7 +500,7 @@ async fn run(plan: &EventsPlan, cx: &mut Cx) -> Res {
             EStep::Await => {
                 settle!();
                 for (i, s) in subs.iter().enumerate() {
-                    check_sub(i, s, &applied, ns, false)?;
+                    check_sub(i, s, &applied, ns, false, only_download)?;
                 }
             }
         }
@@ -499,7 +516,7 @@ async fn run(plan: &EventsPlan, cx: &mut Cx) -> Res {
         }
     }
     for (i, s) in subs.iter().enumerate() {
-        check_sub(i, s, &applied, ns, true)?;
+        check_sub(i, s, &applied, ns, true, only_download)?;
     }
     cx.state(crate::rng::fnv(format!("{}:{}", applied.len(), subs.len()).as_bytes()));
     let _ = node.stop().await?;
